@@ -15,6 +15,16 @@ pub fn capture_all(mutating: bool) -> Value {
     json!({"elem":[{"sel":"*","element":el_ops}], "doc":[{"doctype":[],"comments":[],"text":tx_ops}], "full":true})
 }
 
+/// Capture-all variants for C16: the element selector either matches by name only ('*') or needs the
+/// attributes (':not([zz-absent])', so the selector VM takes its attribute path); `edits` are applied to
+/// every start tag and followed by a second read of the element.
+pub fn capture_all_c16(needs_attrs: bool, edits: &Value) -> Value {
+    let mut ops = edits.as_array().cloned().unwrap_or_default();
+    ops.push(json!({"op":"on_end_tag","a":[[]]}));
+    let sel = if needs_attrs { ":not([zz-absent])" } else { "*" };
+    json!({"elem":[{"sel":sel,"element":ops}], "doc":[{"doctype":[],"comments":[],"text":[]}], "full":true})
+}
+
 pub fn sparse() -> Vec<Value> {
     vec![
         json!({"elem":[{"sel":"a","element":[{"op":"on_end_tag","a":[[]]}]}], "full":true}),
@@ -38,8 +48,21 @@ pub fn project(tl: &[Value]) -> (Vec<Value>, String) {
                 let s = e.get("loc").map(|l| l[0].clone()).unwrap_or(json!(0));
                 let en = e.get("loc").map(|l| l[1].clone()).unwrap_or(json!(0));
                 match e["k"].as_str().unwrap() {
-                    "el" => toks.push(json!({"k":"st","s":s,"e":en,"name":e["name"],"nameraw":e["nameraw"],"attrs":e["attrs"],
-                        "ns":e["ns"],"sc":e["sc"],"chc":e["chc"],"q":e["q"]})),
+                    "el" => {
+                        // edits performed by the handler (arguments as code points) and the element as read afterwards
+                        let mut edits = Vec::new();
+                        for op in e.get("ops").and_then(|x| x.as_array()).cloned().unwrap_or_default() {
+                            let name = op["op"].as_str().unwrap_or("");
+                            if !matches!(name, "set_attr" | "rm_attr" | "set_name") { continue; }
+                            let a = op["a"].as_array().cloned().unwrap_or_default();
+                            let arg = |i: usize| -> Vec<u32> { a.get(i).and_then(|x| x.as_str()).map(crate::driver::s2cp).unwrap_or_default() };
+                            edits.push(json!({"op": name, "n": arg(0), "v": arg(1), "ok": op["r"] == "ok"}));
+                        }
+                        let post = if edits.is_empty() { json!({"name": [], "nameraw": [], "attrs": []}) } else {
+                            json!({"name": e["post"]["name"], "nameraw": e["post"]["nameraw"], "attrs": e["post"]["attrs"]}) };
+                        toks.push(json!({"k":"st","s":s,"e":en,"name":e["name"],"nameraw":e["nameraw"],"attrs":e["attrs"],
+                            "ns":e["ns"],"sc":e["sc"],"chc":e["chc"],"q":e["q"],"edits":edits,"post":post}))
+                    }
                     "et" => toks.push(json!({"k":"et","s":s,"e":en,"name":e["name"],"nameraw":e["nameraw"]})),
                     "cm" => toks.push(json!({"k":"cm","s":s,"e":en,"text":e["text"]})),
                     "dt" => toks.push(json!({"k":"dt","s":s,"e":en})),
@@ -48,6 +71,11 @@ pub fn project(tl: &[Value]) -> (Vec<Value>, String) {
                 }
             }
             _ => {}
+        }
+        // the same token delivered to a second handler is the same observation
+        let n = toks.len();
+        if n >= 2 && toks[n - 1]["k"] == "tx" && toks[n - 1] == toks[n - 2] {
+            toks.pop();
         }
     }
     (toks, res)
@@ -116,9 +144,10 @@ pub fn job_c14(out_dir: &str, tier: &str, seed: u64) {
     let all_mut = capture_all(true);
     // (1) every fragment alone and in pairs over a rotating pool, every 1-cut (+2-cuts when short)
     let mut inputs: Vec<Vec<u8>> = (0..gen::FRAGS.len()).map(|i| gen::frag_bytes(i).to_vec()).collect();
+    inputs.extend(gen::framed_inputs());
     let mut pool: Vec<usize> = (0..gen::FRAGS.len()).collect();
     for i in (1..pool.len()).rev() { pool.swap(i, rng.below(i + 1)); }
-    pool.truncate(if quick { 26 } else { 70 });
+    pool.truncate(if quick { 22 } else { 70 });
     for &a in &pool { for &b in &pool { let mut x = gen::frag_bytes(a).to_vec(); x.extend_from_slice(gen::frag_bytes(b)); inputs.push(x); } }
     for input in &inputs {
         let cutsets = gen::cut_sets(input.len(), &mut rng, if quick { 8 } else { 20 }, 1);
@@ -128,7 +157,7 @@ pub fn job_c14(out_dir: &str, tier: &str, seed: u64) {
     // (2) seeded documents: capture-all, capture-all with earlier rewriting, sparse configurations
     let nrand = if quick { 700 } else { 20000 };
     for i in 0..nrand {
-        let input = match i % 3 { 0 => gen::random_doc(&mut rng, 14), 1 => gen::random_input(&mut rng, 3, 9), _ => {
+        let input = match i % 4 { 0 => gen::random_doc(&mut rng, 14), 1 => gen::random_input(&mut rng, 3, 9), 2 => gen::foreign_doc(&mut rng, 10), _ => {
             let mut v = gen::random_doc(&mut rng, 8); v.extend_from_slice("é日本😀".as_bytes()); v.extend_from_slice(&gen::random_input(&mut rng, 1, 4)); v } };
         let cutsets = gen::light_cut_sets(input.len(), &mut rng, 3);
         let enc = if i % 5 == 4 { *rng.pick(&["windows-1252", "shift_jis", "euc-kr", "gb18030", "big5"]) } else { "utf-8" };
@@ -157,7 +186,12 @@ pub fn job_c16(out_dir: &str, tier: &str, seed: u64) {
     let mut rng = Rng::new(seed ^ 0xC16);
     let mut sh = Shards::new(out_dir, "c16", 1_500_000);
     let mut n = 0usize;
-    let all = capture_all(false);
+    let edit_scripts = [json!([]),
+        json!([{"op":"set_attr","a":["b","NEW"]},{"op":"set_attr","a":["zz","1"]}]),
+        json!([{"op":"rm_attr","a":["B"]},{"op":"set_attr","a":["X","y"]},{"op":"set_name","a":["Hit"]}]),
+        json!([{"op":"set_attr","a":["data-x-y","&"]},{"op":"rm_attr","a":["nope"]},{"op":"rm_attr","a":["x"]},{"op":"set_attr","a":["b",""]}]),
+        json!([{"op":"set_name","a":["x-y"]},{"op":"set_attr","a":["B","2"]},{"op":"rm_attr","a":["b"]},{"op":"set_attr","a":["b","3"]}])];
+    let variants: Vec<Value> = (0..10).map(|i| capture_all_c16(i % 2 == 1, &edit_scripts[i / 2])).collect();
     let tags = tag_grammar(&mut rng, !quick);
     let contexts: [(&str, &str); 5] = [("", ""), ("<svg>", "</svg>"), ("<math>", "</math>"), ("<svg><desc>", "</desc></svg>"), ("<div>x", "</div>")];
     for (ti, tag) in tags.iter().enumerate() {
@@ -175,14 +209,16 @@ pub fn job_c16(out_dir: &str, tier: &str, seed: u64) {
             while c < end { cutsets.push(vec![c]); c += step; }
             cutsets.push((1..input.len()).collect());
             let enc = if ti % 7 == 6 { *rng.pick(&["windows-1252", "shift_jis", "koi8-r"]) } else { "utf-8" };
-            run_variants(&mut sh, "c16", &["C16"], &gen::merge(&all, &json!({"strict": false, "enc": enc})), &input, &cutsets, "sim", &mut n);
+            let all = &variants[(ti + ci * 3) % variants.len()];
+            run_variants(&mut sh, "c16", &["C16"], &gen::merge(all, &json!({"strict": false, "enc": enc})), &input, &cutsets, "sim", &mut n);
         }
     }
     // start tags inside seeded documents
     for _ in 0..(if quick { 400 } else { 10000 }) {
-        let input = gen::random_doc(&mut rng, 14);
+        let input = if rng.chance(1, 2) { gen::random_doc(&mut rng, 14) } else { gen::foreign_doc(&mut rng, 10) };
         let cutsets = gen::light_cut_sets(input.len(), &mut rng, 2);
-        run_variants(&mut sh, "c16", &["C16"], &gen::merge(&all, &json!({"strict": false})), &input, &cutsets, "sim", &mut n);
+        let all = &variants[rng.below(variants.len())];
+        run_variants(&mut sh, "c16", &["C16"], &gen::merge(all, &json!({"strict": false})), &input, &cutsets, "sim", &mut n);
     }
     sh.finish(json!({"rule": "start tags from an attribute-syntax grammar (16 names x 29 attribute forms x 4 tag ends, pairs of forms, seeded 0-3 attribute combinations) in HTML, SVG, MathML, SVG-integration-point and nested HTML context x every cut inside the tag + byte-wise x encodings; plus seeded documents. Every attribute name is looked up as written / upper / lower case and an absent name. Distinct = distinct (input, observation).",
         "tag_grammar_size": tags.len()}));
